@@ -1542,4 +1542,89 @@ pub proof fn lemma_l3_fill_split(a: Seq<GbpTransaction>, j: int, p1: GbpTransact
     rsum_push(r, p1, f_buy_on(x, t)); rsum_push(r.push(p1), p2, f_buy_on(x, t));
 }
 
+
+// ---------- L3 for the closing holding: lines of another security do not change the position of t ----------
+/// the state after the first n lines depends on those lines only
+pub proof fn lemma_net_prefix(a: Seq<GbpTransaction>, b: Seq<GbpTransaction>, n: int, t: Seq<char>)
+    requires 0 <= n <= a.len(), n <= b.len(), forall|k: int| 0 <= k < n ==> #[trigger] a[k] == b[k]
+    ensures net_state(a, n, t) == net_state(b, n, t)
+    decreases n
+{
+    if n > 0 {
+        lemma_net_prefix(a, b, n - 1, t);
+        assert(a[n - 1] == b[n - 1]);
+        if n - 1 > 0 { assert(a[n - 2] == b[n - 2]); }
+        assert(is_day_start(a, n - 1) == is_day_start(b, n - 1));
+    }
+}
+/// one step of the fold, as a function of the previous state, the day-start flag and the line
+pub open spec fn net_step(s0: (real, real), start: bool, tx: GbpTransaction, t: Seq<char>) -> (real, real) {
+    let q = if start { s0.0 * s0.1 } else { s0.0 };
+    let f = if start { 1real } else { s0.1 };
+    if tx.ticker@ != t { (q, f) } else {
+        match tx.operation {
+            Operation::Buy { amount, .. } => (q + amount.v(), f),
+            Operation::Sell { amount, .. } => (q - amount.v(), f),
+            _ => (q, ratio_effect(tx, f)),
+        }
+    }
+}
+pub proof fn lemma_net_unfold(txs: Seq<GbpTransaction>, n: int, t: Seq<char>)
+    requires 0 < n <= txs.len()
+    ensures net_state(txs, n, t) == net_step(net_state(txs, n - 1, t), is_day_start(txs, n - 1), txs[n - 1], t)
+{}
+/// removing line j (of another security) from a date-ordered list: from line j+1 on the two folds agree, or the full list has just folded
+/// the day's factor in (at j, the first line of its day) and the shorter list will do so at its next line
+pub open spec fn rem_rel(txs: Seq<GbpTransaction>, j: int, n: int, t: Seq<char>) -> bool {
+    let rem = txs.remove(j); let sf = net_state(txs, n, t); let sr = net_state(rem, n - 1, t);
+    sf == sr || (sf.0 == sr.0 * sr.1 && sf.1 == 1real && (n == txs.len() || is_day_start(rem, n - 1)))
+}
+pub proof fn lemma_net_remove_other_rel(txs: Seq<GbpTransaction>, j: int, n: int, t: Seq<char>)
+    requires sorted_by_date(txs), 0 <= j < n <= txs.len(), txs[j].ticker@ != t
+    ensures rem_rel(txs, j, n, t)
+    decreases n
+{
+    let rem = txs.remove(j);
+    if n == j + 1 {
+        lemma_net_prefix(rem, txs, j, t);
+        lemma_net_unfold(txs, n, t);
+        if is_day_start(txs, j) && n < txs.len() {
+            // rem's next line is txs[j+1]; its predecessor in rem is txs[j-1], dated before txs[j]
+            assert(rem[j] == txs[j + 1]);
+            if j > 0 { assert(rem[j - 1] == txs[j - 1]); assert(txs[j].date.d() <= txs[j + 1].date.d()); }
+        }
+        assert(1real * 1real == 1real) by(nonlinear_arith);
+    } else {
+        lemma_net_remove_other_rel(txs, j, n - 1, t);
+        lemma_net_unfold(txs, n, t); lemma_net_unfold(rem, n - 1, t);
+        assert(rem[n - 2] == txs[n - 1]);
+        let sf0 = net_state(txs, n - 1, t); let sr0 = net_state(rem, n - 2, t);
+        // day-start flags of the line being folded
+        if n - 2 > j { assert(rem[n - 3] == txs[n - 2]); }
+        if n - 1 == j + 1 {
+            // predecessor in txs is line j, in rem it is line j-1
+            if j > 0 { assert(rem[j - 1] == txs[j - 1]); assert(txs[j - 1].date.d() <= txs[j].date.d()); assert(txs[j].date.d() <= txs[j + 1].date.d()); }
+        }
+        if sf0 == sr0 {
+            if n - 1 == j + 1 && !is_day_start(txs, j) {
+                // j was not the first line of its day: both predecessors carry the same date
+                assert(txs[j - 1].date.d() == txs[j].date.d());
+            }
+        } else {
+            let qq = sr0.0 * sr0.1;
+            assert(qq * 1real == qq) by(nonlinear_arith);
+        }
+        if n < txs.len() { assert(rem[n - 1] == txs[n]); }
+    }
+}
+/// L3 (C09): removing a line of another security leaves the position of t unchanged
+pub proof fn lemma_l3_holding_other_security(txs: Seq<GbpTransaction>, j: int, t: Seq<char>)
+    requires sorted_by_date(txs), 0 <= j < txs.len(), txs[j].ticker@ != t
+    ensures net_total(txs.remove(j), txs.len() - 1, t) == net_total(txs, txs.len() as int, t)
+{
+    lemma_net_remove_other_rel(txs, j, txs.len() as int, t);
+    let sr = net_state(txs.remove(j), txs.len() - 1, t); let qq = sr.0 * sr.1;
+    assert(qq * 1real == qq) by(nonlinear_arith);
+}
+
 } // verus!
